@@ -10,8 +10,11 @@ Configuration spec (``cfg``, pure JSON - part of every case)
      "in":  [kind, ...],               input rails in configured order
      "out": [kind, ...],               output rails in configured order
      "ret": n,                         number of retrieval rails (v1 only)
-     "dialog": bool,                   v1: user intents + flows + predefined/LLM bot messages (else general mode)
-                                       v2: a generated dialog flow that branches on the case's route (else: always LLM)
+     "dialog": bool | "llmc",          v1: user intents + flows + predefined/LLM bot messages (else general mode)
+                                       v2: True = a generated dialog flow that branches on the case's route through a
+                                       custom action, False = every turn asks the LLM (PassthroughLLMAction),
+                                       "llmc" = the library's `llm continuation` (import llm) with intent flows: the LLM
+                                       picks the user intent and, for unhandled intents, generates the bot action
      "exc": bool,                      enable_rails_exceptions
      "style": "config" | "hand"}       v2 only: rails listed in config.yml (parameterless flows reading the globals)
                                        or hand-written `flow input rails $input_text` passing the text on
@@ -106,6 +109,8 @@ V1_ROUTES = ("predef", "llm", "pl", "lp", "ll", "next_llm", "next_predef", "act_
 def routes_for(cfg):
     if not cfg.get("dialog"):
         return ("llm",)
+    if cfg["v"] == 2 and cfg["dialog"] == "llmc":
+        return ("predef", "llm")
     return V1_ROUTES if cfg["v"] == 1 else V2_ROUTES
 
 
@@ -287,13 +292,34 @@ def _v2_dialog(cfg):
     return "\n".join(lines) + "\n"
 
 
+V2_LLMC = f"""
+flow main
+  activate llm continuation
+  activate vf greeting
+
+flow vf greeting
+  user expressed greeting
+  bot express greeting
+
+flow user expressed greeting
+  user said "hi" or user said "hello there"
+
+flow bot express greeting
+  bot say "{PREDEF['greet']}"
+
+"""
+
+
 def _v2_config(cfg):
     style = cfg.get("style", "config")
     has_self = "self" in cfg.get("in", []) or "self" in cfg.get("out", [])
     co = ["import core", "import guardrails"]
     if has_self:
         co.append("import nemoguardrails.library")  # not pulled in by the generated `input rails` file (probed)
-    co += ["", "flow main", "  activate vf turn", "", _v2_dialog(cfg)]
+    if cfg.get("dialog") == "llmc":
+        co += ["import llm", V2_LLMC]
+    else:
+        co += ["", "flow main", "  activate vf turn", "", _v2_dialog(cfg)]
     rails = {}
     for cat in ("in", "out"):
         kinds = cfg.get(cat, [])
@@ -622,7 +648,7 @@ def generated_texts(obs_turn):
     """(turn, k) of every message text the LLM produced in this turn (bot-message / general / passthrough calls)."""
     out = []
     for c in obs_turn["llm"]:
-        if c["task"] in ("generate_bot_message", "general") and c["answer"] is not None:
+        if c["task"] in fakes.MESSAGE_TASKS and c["answer"] is not None:
             out += fakes.lineage(c["answer"])
     return out
 
